@@ -51,15 +51,17 @@ TMPLS = [[], [], [], [dict(k='eq', v=g.I(1))], [dict(k='any'), dict(k='gt', n=5)
          [dict(k='eq', v=g.I(1)), dict(k='any'), dict(k='eq', v=g.I(7))]]
 
 
-QUIET = dict(rk=0, acts=[])
+QUIET = dict(rk=0, acts=[], ar=4)
+ARITIES = [1, 2, 3, 4, 0]      # declared parameters of a callback: a prefix of (msg, time, addr, recv_port); 0 = *args
 
 
 def rand_beh(rnd, nmax=6):
     """what a callback does: nothing (mostly), raise on its k-th invocation, free/disable/enable responders"""
+    ar = rnd.choice(ARITIES + [4, 4, 1])
     if rnd.random() < 0.55:
-        return QUIET
+        return dict(QUIET, ar=ar)
     acts = [dict(op=rnd.choice(['free', 'disable', 'enable']), i=rnd.randint(1, nmax)) for _ in range(rnd.choice([0, 0, 1, 1, 2]))]
-    return dict(rk=rnd.choice([0, 1, 1, 1, 2, 3]), acts=acts)
+    return dict(rk=rnd.choice([0, 1, 1, 1, 2, 3]), acts=acts, ar=ar)
 
 
 def create(rnd, **kw):
@@ -184,7 +186,7 @@ def multipath_random(rnd):
     for i in range(n):
         acts = [dict(op=rnd.choice(['free', 'free', 'disable', 'enable']), i=rnd.randint(1, n)) for _ in range(rnd.choice([0, 0, 1, 1, 2]))]
         ev.append(dict(op='create', kind=kind or rnd.choice(['exact', 'matching']), path=codes(rnd.choice(paths)), src=dict(h=0, p=0),
-                       rport=0, tmpl=[], os=rnd.random() < 0.2, beh=dict(rk=rnd.choice([0, 0, 0, 1, 2]), acts=acts)))
+                       rport=0, tmpl=[], os=rnd.random() < 0.2, beh=dict(rk=rnd.choice([0, 0, 0, 1, 2]), acts=acts, ar=rnd.choice(ARITIES))))
     for _ in range(rnd.randint(2, 5)):
         x = rnd.random()
         if x < 0.6:
@@ -200,6 +202,28 @@ def multipath_random(rnd):
 
 HOSTILE_SENDERS = [dict(h=2, p=1), dict(h=3, p=1), dict(h=2, p=2), dict(h=3, p=2), dict(h=2, p=5001), dict(h=3, p=5002), dict(h=1, p=5002)]
 HOSTILE_PAYLOADS = [b'', b'\0', b'\0\0\0\0', b'/a', b'#bundle\0', b'\xff' * 7, b'/a\0\0,i\0\0', b'#bundle\0' + bytes(7) + b'\1\xff\xff\xff\xfc']
+
+
+def arity_histories():
+    """Callback ARITY x filter combination: responders whose functions declare 1, 2, 3, 4 parameters or *args, with
+    every combination of sender filter x receive-port filter x argument template, for both dispatchers, plain and
+    one-shot: each of them runs exactly once for a message that passes its filters, none for one that does not."""
+    out = []
+    for kind in ('exact', 'matching'):
+        for src in (dict(h=0, p=0), dict(h=1, p=5001)):
+            for rport in (0, 2):
+                for tmpl in ([], [dict(k='eq', v=g.I(1))]):
+                    for os_ in (False, True):
+                        ev = [dict(op='create', kind=kind, path=codes('/a'), src=src, rport=rport, tmpl=tmpl, os=os_,
+                                   beh=dict(rk=0, acts=[], ar=ar)) for ar in ARITIES]
+                        ev.append(dict(op='create', kind=kind, path=codes('/a'), src=src, rport=rport, tmpl=tmpl, os=False,
+                                       beh=dict(rk=1, acts=[], ar=1)))       # and one that raises, one parameter
+                        good = dict(op='recv', v=g.M('/a', [g.I(1), g.S('x')]), src=dict(h=1, p=5001), via=2)
+                        ev += [dict(op='recv', v=g.M('/a', [g.I(2)]), src=dict(h=2, p=5001), via=1), good,
+                               dict(op='recv', v=g.Bn(g.Lat(2), [g.M('/a', [g.I(1)]), g.M('/a', [g.I(1), g.I(1)])]), src=dict(h=1, p=5001), via=2),
+                               good]
+                        out.append(ev)
+    return out
 
 
 def deep_bundle(depth, inner=b''):
@@ -325,6 +349,7 @@ def directed_histories():
 def sim_histories(ctx, num, cfg='DispatchModel_sim.cfg', depth=14, seed_off=1, sub='s'):
     behs, r = tlc.simulate_behaviours('DispatchModel', cfg, os.path.join(ctx.work, sub), num=num, depth=depth, seed=ctx.seed + seed_off)
     ctx.cov['transitions'] += r.generated
+    arnd = random.Random(ctx.seed + 77 + seed_off)
     out = []
     for b in behs:
         ev = []
@@ -337,6 +362,8 @@ def sim_histories(ctx, num, cfg='DispatchModel_sim.cfg', depth=14, seed_off=1, s
                 m = op['m']
                 ev.append(dict(op='recv', src=op['src'], via=op['via'], v=dict(t='m', a=m['a'], args=m['args'])))
             else:
+                if 'beh' in op:     # arity is irrelevant to the model: draw one for the real function
+                    op = dict(op, beh=dict(op['beh'], ar=arnd.choice(ARITIES)))
                 ev.append(op)
         if ev:
             out.append(ev)
@@ -589,6 +616,7 @@ def run(ctx):
     hs = [dict(kind='dispatch', ev=h, src='directed') for h in directed_histories()]
     hs += [dict(kind='dispatch', ev=h, src='model') for h in sims]
     hs += [dict(kind='dispatch', ev=h, src='directed') for h in multipath_histories()]
+    hs += [dict(kind='dispatch', ev=h, src='directed') for h in arity_histories()]
     hs += [dict(kind='dispatch', ev=h, src='hostile/udp', udp=True) for h in hostile_histories()]
     # (expensive to decode in TLC: spread them over the validation batches)
     deep = deep_histories(thorough)
@@ -641,7 +669,8 @@ def run(ctx):
     ctx.assumptions += [
         'order is demanded among responders registered on the same path of the same dispatcher; order across paths / between the exact and '
         'the matching dispatcher is not (the recv functions are a set in the library)',
-        'callbacks are scripted: they log, may free/disable/enable any responder (themselves included) from inside and may raise on '
+        'callbacks are scripted: they declare 1-4 parameters or *args (what they are not handed is read from the library\'s dispatch '
+        'frame for the log), they log, may free/disable/enable any responder (themselves included) from inside and may raise on '
         'their k-th invocation; a responder that a callback of the same delivery freed/disabled/enabled may or may not fire in that '
         'delivery (the statement gives both readings), everything else is demanded exactly; enable() after free() re-enables (code behaviour)',
         'the arrival time passed to callbacks is compared for bundles with a time tag only (bare messages get the wall clock)',
